@@ -128,6 +128,18 @@ def selftest():
     assert refbucket.published_key("s", {"b": 1, "a": "x", "B": None}) == "sNonex1"
 
 
+def fixed_cases():
+    """keys at the edges of the scheme: the empty key, a key that is only a salt, falsy values, values that print alike"""
+    for salt in (None, "", "s", " "):
+        for names in (["uid"], ["uid", "Zeta"], ["b", "a", "B"]):
+            body = M.ret([(M.lit_str("g%d" % j), "1") for j in range(16)])
+            prog = M.program("exp", body, salt=salt, splitters=names)
+            vals = ["", 0, 0.0, False, None, "0", " ", "None", -0.0, [], ()]
+            inputs = [M.enc_inputs({n: v for n in names}) for v in vals if not isinstance(v, (list, tuple))]
+            inputs += [M.enc_inputs({n: "" for n in names})] * 4  # the same empty key again and again
+            yield {"prog": prog, "inputs": inputs}
+
+
 KNOWN_ANSWERS = [{"s": s} for s in list(refbucket.RFC1321) + ["unit-3373044025", "unit-5155129577", "unit-7940567911"]]
 
 
@@ -139,6 +151,10 @@ def run(ctx, rec):
         assert refbucket.string_position("unit-7940567911") == refbucket.GRID - 1
     if rec.violations:
         return
+    if ctx.shard == 0:
+        runner.direct_run(ctx, rec, "edge-keys", fixed_cases(), judge)
+        if rec.violations:
+            return
     runner.hyp_run(ctx, rec, "programs", cases(), judge, ctx.n(400, 2500))
     if rec.violations:
         return
